@@ -31,11 +31,12 @@ NAMES = ["spA", "spB", "spC", "spD"]
 
 def steps_c13(rng, nsteps, nthreads):
     out, serial, live, ent = [], 0, {}, {t: [] for t in range(1, nthreads + 1)}
+    recorded = set()
     while len(out) < nsteps:
         t = rng.randint(1, nthreads)
         ops = ["event"] * 6 + ["new"] * 3 + ["burst"]
         if live:
-            ops += ["enter"] * 3 + ["drop", "event_of", "event_root"]
+            ops += ["enter"] * 3 + ["drop", "event_of", "event_root", "record"]
         if any(ent.values()):
             ops += ["exit"] * 3
         op = rng.choice(ops)
@@ -62,6 +63,14 @@ def steps_c13(rng, nsteps, nthreads):
             live[serial] = name
             out.append({"op": "new", "t": t, "s": serial, "name": name, "pk": "ctx", "p": 0,
                         "fields": [{"name": "fa", "val": {"t": "str", "v": "s%dx" % serial}}]})
+        elif op == "record":
+            # a second field of the span, recorded after its creation (once)
+            cands = [s for s in live if s not in recorded]
+            if not cands:
+                continue
+            s = rng.choice(cands)
+            recorded.add(s)
+            out.append({"op": "record", "t": t, "s": s, "name": live[s], "fields": [{"name": "fb", "val": {"t": "str", "v": "r%dz" % s}}]})
         elif op == "enter":
             s = rng.choice(list(live))
             if any(s in ent[x] for x in ent):
@@ -95,7 +104,9 @@ def behaviour_c13(rng):
             "file": rng.random() < 0.3, "line": rng.random() < 0.3, "ansi": rng.random() < 0.3, "time": (rng.random() < 0.4 and fmt != "compact"),
             "span_events": rng.choice(list(SE)), "flatten": rng.random() < 0.3, "current_span": True, "span_list": True}
     nth = rng.choice([1, 2, 3])
-    return {"src": "random-c13", "format": fmt, "opts": opts, "writer": {"shape": shape, "params": params},
+    # a sink that records and then reports an I/O error: the routing of the record must not depend on it
+    failing = [rng.choice([1, 2, 3])] if rng.random() < 0.25 else []
+    return {"src": "random-c13", "format": fmt, "opts": opts, "opts_first": rng.random() < 0.4, "writer": {"shape": shape, "params": params, "failing": failing},
             "steps": steps_c13(rng, 40, nth)}
 
 
@@ -103,8 +114,9 @@ def reset_fields(b):
     return {"format": b["format"], "level": b["opts"]["level"], "se": SE[b["opts"]["span_events"]], "tree": SHAPES[b["writer"]["shape"]](b["writer"]["params"])}
 
 
-def project_write(raw, fmt, opts, step):
-    """raw record text -> the observation of FmtRecord!RecordOk"""
+def project_write(raw, fmt, opts, step, spanrec=None):
+    """raw record text -> the observation of FmtRecord!RecordOk; spanrec: span serial -> value recorded later for its field fb"""
+    spanrec = spanrec or {}
     txt = ANSI.sub("", raw)
     w = {"nl": txt.endswith("\n"), "oneline": txt.count("\n") == 1}
     level = 0
@@ -116,6 +128,10 @@ def project_write(raw, fmt, opts, step):
             spans = [int(re.fullmatch(r"s(\d+)x", s.get("fa", "")).group(1)) for s in o.get("spans", []) if re.fullmatch(r"s(\d+)x", str(s.get("fa", "")))]
             msg = o.get("message") if "message" in o else o.get("fields", {}).get("message", "")
             body = msg if isinstance(msg, str) else ""
+            for sp in o.get("spans", []):
+                m = re.fullmatch(r"s(\d+)x", str(sp.get("fa", "")))
+                if m and int(m.group(1)) in spanrec and sp.get("fb") != spanrec[int(m.group(1))]:
+                    return dict(w, level=level, spans=spans, toks=[-1], fields_ok=False)
         except Exception:
             return dict(w, level=-1, spans=[], toks=[-1], fields_ok=False)
     else:
@@ -127,6 +143,10 @@ def project_write(raw, fmt, opts, step):
             m = re.search(r"\b(ERROR|WARN|INFO|DEBUG|TRACE)\b", txt)
             level = LEVELS[m.group(1)] if m else 0
         spans = [int(x) for x in re.findall(r"s(\d+)x", txt)]
+        # a span's later-recorded field is shown next to its first one, as a separate field
+        for k in set(spans):
+            if k in spanrec and not re.search(r'fa[=:] ?"s%dx"(, | )fb[=:] ?"%s"' % (k, re.escape(spanrec[k])), txt):
+                return dict(w, level=level, spans=spans, toks=[-1], fields_ok=False)
     for m in re.finditer(r"\bm(\d+)\b|\b(new|enter|exit|close)\b", body if fmt == "json" else txt):
         toks.append(int(m.group(1)) + 1000 if m.group(1) else {"new": 1, "enter": 2, "exit": 3, "close": 4}[m.group(2)])
     fields_ok = True
